@@ -343,6 +343,9 @@ def families() -> dict[str, dict]:
     f["suspend"] = {"stages": [S("A", tasks=[["susp", "ok"]]), S("B", ["A"])]}
     f["mutex_pair"] = {"stages": [S("A"), S("B", ["A"], mutex="k1", tasks=[["ok"], ["ok"]]), S("C", ["A"], mutex="k1"), S("D", ["B", "C"])]}
     f["choice3"] = {"stages": [S("A"), S("B", ["A"], choice="k1"), S("C", ["A"], choice="k1"), S("D", ["A"], choice="k1")]}
+    # the mutex holder parks (its task suspends) while a sibling keeps retrying; a signal brings the holder back
+    f["mutex_suspend"] = {"stages": [S("A"), S("B", ["A"], mutex="k1", tasks=[["susp", "ok"]]), S("C", ["A"], mutex="k1"), S("D", ["B", "C"])]}
+    f["mutex_fail"] = {"stages": [S("A"), S("B", ["A"], mutex="k1", tasks=[["fail"]], ctx={"failPipeline": False}), S("C", ["A"], mutex="k1")]}
     f["skippable_disabled"] = {"stages": [S("A", tasks=[["ok"], ["ok"]], skippable_disabled=[0]), S("B", ["A"], tasks=[["ok"]], skippable_disabled=[0])]}
     f["or_split"] = {"stages": [S("A", split="OR", conds={"B": "true", "C": "false"}), S("B", ["A"]), S("C", ["A"]),
                                 S("J", ["B", "C"], join="OR")]}
@@ -697,6 +700,22 @@ def plan(pid: str, tier: str, rng: random.Random) -> list[dict]:
                 for rep in range(10 if thorough else 4):
                     add(kind="inject", what="pause", at=at, unpause_at=at + 6, spec=spec, name=n, policy="random",
                         cancel_with_unpause=True)
+    if pid in ("C11",):
+        mx = {n: fam[n] for n in ("mutex_pair", "choice3", "mutex_suspend", "mutex_fail")}
+        schedules(list(mx.items()), ["fifo", "lifo", "random", "redeliver"], 8 if thorough else 3)
+        for n, spec in mx.items():
+            for st in spec["stages"]:
+                add(kind="policy", policy="starve:" + st["ref"], spec=spec, name=n)
+        # the holder of the mutex is suspended; signal it at every step (the sibling's retries run in between)
+        for at in range(0, 30 if thorough else 22):
+            for pol in ("fifo", "random", "lifo"):
+                add(kind="inject", what="signal", stage=1, signame=1, persistent=True, at=at, spec=fam["mutex_suspend"],
+                    name="mutex_suspend", policy=pol)
+        for n in ("mutex_pair", "mutex_suspend"):
+            for at in range(4, 24, 2):
+                add(kind="inject", what="pause", at=at, unpause_at=at + 5, spec=fam[n], name=n, policy="random", cancel_with_unpause=False)
+            for at in range(0, 60 if thorough else 30, 2):
+                add(kind="crash", at=at, spec=fam[n], name=n, drain="random")
     if pid in ("C18",):
         sus2 = {"suspend": (fam["suspend"], 0), "suspend_twice": ({"stages": [S("A", tasks=[["susp", "susp", "ok"]]), S("B", ["A"])]}, 0),
                 "suspend2": ({"stages": [S("A"), S("B", ["A"], tasks=[["ok"], ["susp", "ok:k1=1"]]), S("C", ["B"])]}, 1)}
@@ -752,9 +771,11 @@ def monitor(pid: str, out: dict, base: dict | None) -> list[Violation]:
     if pid == "C02" and crashfree:
         vs += M.m_c02(out)
         if base is not None:
-            vs += M.m_outcome(out, base, "reordered/redelivered")
+            vs += M.m_outcome(out, base, "reordered/redelivered", exec_slack={})
     if pid == "C03":
         vs += M.m_c03(out)
+    if pid == "C11":
+        vs += M.m_c11(out)
     if pid == "C05" and crashfree:
         vs += M.m_c05(out)
     if pid == "C01" and kind == "crash" and base is not None:
